@@ -1,0 +1,27 @@
+#!/usr/bin/env python3
+"""Off-by-default observation hooks for the iterative kernels.
+
+Nothing here changes behaviour.  With ``LINEAR_OPERATOR_VERIF=1`` in the environment the
+kernels publish their loop state (per-iteration events) to the sinks registered here; without
+it ``ENABLED`` is False and the ``if _verif.ENABLED`` guards at the emit points are never taken.
+"""
+import os
+
+ENABLED = os.environ.get("LINEAR_OPERATOR_VERIF") == "1"
+
+_sinks = []
+
+
+def register(sink):
+    _sinks.append(sink)
+    return sink
+
+
+def unregister(sink):
+    if sink in _sinks:
+        _sinks.remove(sink)
+
+
+def emit(event, **payload):
+    for sink in tuple(_sinks):
+        sink(event, payload)
